@@ -24,7 +24,7 @@ build() { # name, command...
 }
 build asan bash -c 'cd harness && RUSTFLAGS="-Zsanitizer=address" cargo +nightly build --profile checked --target x86_64-unknown-linux-gnu --target-dir /verif/target/asan' || exit 2
 if [ "$MODE" = quick ]; then
-  SVCHECK_WORKER_EXE="$ASAN_BIN" exec ./target/checked/svcheck check C07 --tier quick --only-sub asan-seq
+  SVCHECK_WORKER_EXE="$ASAN_BIN" exec ./target/checked/svcheck check C07 --tier quick --only-sub asan-seq,dimension-sweeps
 fi
 
 # ------------------------------------------------------------------ thorough
@@ -33,7 +33,7 @@ run_stage() { # name, exit code
   if [ "$2" -eq 1 ]; then rc=1; elif [ "$2" -ne 0 ] && [ "$rc" -eq 0 ]; then rc=2; fi
 }
 # stage 1: ASan
-SVCHECK_WORKER_EXE="$ASAN_BIN" ./target/checked/svcheck check C07 --tier thorough --only-sub asan-seq --evidence-out $T/C07-asan.json
+SVCHECK_WORKER_EXE="$ASAN_BIN" ./target/checked/svcheck check C07 --tier thorough --only-sub asan-seq,dimension-sweeps --evidence-out $T/C07-asan.json
 run_stage asan $?
 # stage 2: MSan (uninitialised reads)
 if build msan bash -c 'cd harness && RUSTFLAGS="-Zsanitizer=memory" cargo +nightly build -Zbuild-std --profile checked --target x86_64-unknown-linux-gnu --target-dir /verif/target/msan'; then
